@@ -527,6 +527,8 @@ class HTMLSanitizer(object):
             t = match.group(1)
             if t:
                 code = int(t, 16)
+                if code == 0x5C:
+                    return r'\\' # a backslash stays escaped, like '\\' below
                 if code > 0x10FFFF or 0xD800 <= code <= 0xDFFF:
                     return u'\ufffd' # not a character
                 return six.unichr(code)
